@@ -119,7 +119,7 @@ S7 = Scenario(
 S9 = Scenario(
     "S9-repoint-after-reshape", seeds.seed_repoint,
     ["port.create_pin", "port.add_pin", "definition.ports=", "port.pins=", "definition.create_port",
-     "wire.connect_pin", "wire.disconnect_pin", "instance.reference="],
+     "wire.connect_pin", "wire.disconnect_pin", "wire.disconnect_pins_from.held", "instance.reference="],
     limits={"positions": (None, 0), "names": (None,), "counts": (None, 1),
             "proxy_pairs": lambda w: [], "odd_bulk": False},
     depth={"quick": 2, "thorough": 3},
